@@ -499,6 +499,26 @@ def _tracer_for(repo_prefix):
     return tracer
 
 
+def _replay_in_subprocess(hdef, params, v):
+    import json
+    import os
+    import subprocess
+    import tempfile
+    prop = hdef.fn.__module__.split('.')[-1]
+    with tempfile.NamedTemporaryFile('w', suffix='.json', delete=False) as f:
+        json.dump({'property': prop, 'harness': hdef.fn.__name__, 'params': params, 'label': v.label,
+                   'model': v.model, 'detail': ''}, f, default=str)
+        path = f.name
+    try:
+        r = subprocess.run([sys.executable, '-B', '-m', 'pysym.runner', prop, '--replay', path],
+                           capture_output=True, text=True, timeout=600, env=dict(os.environ))
+        return r.returncode == 1 and 'VIOLATION' in r.stdout
+    except Exception:      # noqa: BLE001
+        return False
+    finally:
+        os.unlink(path)
+
+
 class JobResult:
     def __init__(self, name, params):
         self.name = name
@@ -639,6 +659,11 @@ def run_job(hdef, params, known=(), max_paths=2_000_000, deadline_s=3600,
                     ok = (v.label in ccx.failed) or (escaped is not None and escaped == v.label)
                     if ok:
                         v.model = alt
+                if not ok and escaped is not None and str(escaped).startswith('engine:'):
+                    # proxies of the symbolic run leaked into module-level state of the code under analysis
+                    # (e.g. a shared object that a path mutated): replay in a fresh interpreter instead
+                    ok = _replay_in_subprocess(hdef, params, v)
+                    res.replays += 1
                 if ok:
                     confirmed.append({'label': v.label, 'model': v.model, 'detail': v.detail})
                 else:
